@@ -77,8 +77,13 @@ macro_rules! toy_sw {
 macro_rules! glv_override {
     () => {
         fn mul_projective(p: &sw::Projective<Self>, scalar: &[u64]) -> sw::Projective<Self> {
-            // verbatim the override of bls12_381 / bls12_377 / bn254 g1
-            let s = Self::ScalarField::from_sign_and_limbs(true, scalar);
+            // verbatim the override of bls12_381 / bls12_377 / bn254 g1 (after `fix:` ce8a6a5)
+            let s = if scalar.len() <= Self::ScalarField::MODULUS.0.len() {
+                Self::ScalarField::from_sign_and_limbs(true, scalar)
+            } else {
+                let bytes: Vec<u8> = scalar.iter().flat_map(|limb| limb.to_le_bytes()).collect();
+                Self::ScalarField::from_le_bytes_mod_order(&bytes)
+            };
             GLVConfig::glv_mul_projective(*p, s)
         }
     };
@@ -819,6 +824,47 @@ where
     batch_ops(cv, out, rng, &bsub[..1], &kss[3..], &[1, 33, 65536], &[rb], false);
     // scalar_size = 0: the only scalar in the domain is 0
     batch_ops(cv, out, rng, &bsub[..1], &[vec![ks[0]]], &[1, 33], &[0, 1], false);
+}
+/// shipped / large curve, quick tier.  Each line on a non-trivial point costs two reference scalar
+/// multiplications in the driver (~10 ms each at 256 bits), so this tier takes a seed-dependent fifth of the
+/// structured scalar lists (the identity, which is cheap, sees all of them) and one operation per scalar.
+fn large_quick<A: AffineRepr>(cv: &Cv<A>, out: &mut Out, rng: &mut Rng, pts: &[A], scale: usize)
+where
+    A::Group: ScalarMul<MulBase = A>,
+{
+    let raws = raw_scalars(cv.n, &cv.r, rng, 2 * scale);
+    let np = pts.len();
+    let off = rng.below(5) as usize;
+    raw_ops(cv, out, rng, &pts[..1], &raws, 1);
+    let sel: Vec<Vec<u64>> = raws.iter().enumerate().filter(|(j, s)| (j + off) % 5 == 0 || s.len() > cv.n + 1).map(|(_, s)| s.clone()).collect();
+    for (j, s) in sel.iter().enumerate() {
+        let i = 1 + j % (np - 1);
+        raw_ops(cv, out, rng, &pts[i..i + 1], &[vec![], vec![], vec![], s.clone()][3 - j % 4..4 - j % 4 + 0].to_vec().as_slice(), 4);
+    }
+    let ks: Vec<A::ScalarField> = field_scalars(rng, 2 * scale, false);
+    scalar_ops(cv, out, rng, &pts[..1], &ks[..6], 3);
+    let ksel: Vec<A::ScalarField> = ks.iter().enumerate().filter(|(j, _)| (j + off) % 5 == 0).map(|(_, k)| *k).collect();
+    for (j, k) in ksel.iter().enumerate() {
+        let i = 1 + j % (np - 1);
+        scalar_ops(cv, out, rng, &pts[i..i + 1], &[*k, *k, *k][..1 + j % 3], 1);
+    }
+    bits_ops(cv, out, rng, &pts[..1], 2);
+    bits_ops(cv, out, rng, &pts[1..2], 0);
+    // wNAF: four windows per run (rotating with the seed), fresh tables; invalid windows on the identity
+    let ws = [2usize, 3, 4, 5, 6, 7, 8, 9, 10];
+    for j in 0..4 {
+        let w = ws[(2 * j + off) % 9];
+        let i = 1 + j % (np - 1);
+        wnaf_ops(cv, out, rng, &pts[i..i + 1], &ks[(7 * j + off) % ks.len()..(7 * j + off) % ks.len() + 1], &[w], 3);
+    }
+    wnaf_ops(cv, out, rng, &pts[..1], &ks[ks.len() - 2..], &[2, 0, 1, 64], 3);
+    mwt_ops(cv, out, rng, &pts[1..2], &ks[ks.len() - 1..], &[3]);
+    // fixed base
+    let rb = cv.rbits;
+    let k1 = vec![vec![ks[ks.len() - 2]]];
+    batch_ops(cv, out, rng, &pts[1..2], &[vec![A::ScalarField::zero()]], &[1], &[0], false);
+    batch_ops(cv, out, rng, &pts[1..2], &k1, &[1000], &[rb], false);
+    batch_ops(cv, out, rng, &pts[2..3], &k1, &[[1usize, 2, 31, 32, 33][off]], &[[rb - 1, rb + 1, 64 * cv.n + 5, 17, rb][off]], false);
 }
 /// shipped / large curve: structured scalars × a few points.  Each line costs two reference scalar
 /// multiplications in the driver (~10 ms each at 256 bits), so the quick tier rotates the operations over the
